@@ -214,38 +214,135 @@ def run_parity(ctx: Ctx) -> RuleResult:
             if gfun is None:
                 continue
             n_adapt += 1
-            inner = [x for x in gfun.node.body if isinstance(x, ast.FunctionDef)]
             ps = gfun.positional_names()
-            call = asg.value
-            bound = {p: norm(a) for p, a in zip(ps, call.args)}
-            ok = len(inner) == 1 and len(inner[0].args.args) == 1 and bool(ps)
-            why = 'adapter is not a one-argument closure'
-            if ok:
-                cparam = inner[0].args.args[0].arg
-                inner_nodes = [x for x in ast.walk(inner[0])]
-                if len(ps) == 1:
-                    # plain callback: must be called with the children it was given
-                    calls = [x for x in inner_nodes if isinstance(x, ast.Call) and isinstance(x.func, ast.Name) and x.func.id == ps[0]]
-                    ok = bool(calls) and all(len(x.args) == 1 and not x.keywords and norm(x.args[0]) == cparam for x in calls)
-                    why = 'the callback is called with %s, not with the children list that Transformer._call_userfunc passes' % (
-                        ', '.join(norm(a) for a in calls[0].args) if calls else 'nothing')
+            bound = {p_: norm(a_) for p_, a_ in zip(ps, asg.value.args)}
+            if len(ps) == 1:
+                ok, why = _adapter(gfun, 'plain')
+            else:
+                wp = [p_ for p_ in ps if bound.get(p_) not in (fvar, namevar)]
+                np_ = [p_ for p_ in ps if bound.get(p_) == namevar]
+                if len(wp) == 1 and len(np_) == 1 and ps and bound.get(ps[0]) == fvar:
+                    ok, why = _adapter(gfun, 'wrapper', wp[0], np_[0])
                 else:
-                    # v_args wrapper: wrapper(func, name, children, meta) with name bound to the node name at the call site
-                    wp = [p for p in ps if bound.get(p) not in (fvar, namevar)]
-                    np_ = [p for p in ps if bound.get(p) == namevar]
-                    ok = len(wp) == 1 and len(np_) == 1 and has_pat(
-                        inner_nodes, 'return %s(%s, %s, %s, None)' % (wp[0], ps[0], np_[0], cparam))
-                    why = 'the v_args wrapper is not called as wrapper(func, <node name>, children, None) with the name create_callback looked the method up by'
-            res.ob('%s %s' % (gfun.loc(), gfun.qual), 'embedded calling convention equals Transformer._call_userfunc\'s (%s)' % gname, ok)
+                    ok, why = False, 'the adapter is not given the method, the name it was looked up by and its v_args wrapper'
+            # which transformers the adapter applies to (the classes named by the isinstance guard of its arm)
+            guard_classes = _guard_classes(asg)
+            res.ob('%s %s' % (gfun.loc(), gfun.qual), 'embedded calling convention equals Transformer._call_userfunc\'s (%s, applies to %s)'
+                   % (gname, guard_classes), ok)
             if not ok:
-                res.finding(gfun, gfun.node, 'embedded user callbacks adapted by %s: %s' % (gname, why), construct='embedded:callback-arg')
+                res.finding(gfun, gfun.node, 'embedded user callbacks adapted by %s (for %s): %s' % (gname, guard_classes, why),
+                            construct='embedded:callback-arg' + ('' if guard_classes == 'Transformer_InPlace' else '[%s]' % guard_classes))
         res.require_instances(n_adapt, 1, 'callback adapters in create_callback')
+    # token callbacks travel from _get_lexer_callbacks to the parser's callback table unadapted
+    cbs = find_pat(glc.body_nodes(), '$cb = getattr($tr, $term.name, None)', {'tr': tparam})
+    ok = bool(cbs) and has_pat(glc.body_nodes(), '$r[$term.name] = $cb', {'cb': cbs[0][1]['cb'], 'term': cbs[0][1]['term']})
+    res.ob('%s %s' % (glc.loc(), glc.qual), 'the registered token callback is the transformer\'s method itself', ok)
+    if not ok:
+        res.finding(glc, glc.node, 'the token callback registered for a terminal is not the bound method found under its name',
+                    construct='embedded:token-callback-value')
+    n_flow = 0
+    for f in repo.functions.values():
+        if f.module.name != 'lark.lark':
+            continue
+        for c, _b in find_pat(f.body_nodes(), '_get_lexer_callbacks($$a, $$b)'):
+            n_flow += 1
+            par = parent(c)
+            ok, why = False, 'its result does not reach the callback table unchanged'
+            if isinstance(par, ast.Call) and unify_ok(par, '$$tbl.update($$c)') and par.args[0] is c:
+                ok = True
+            else:
+                # for name, cb in <call>.items(): tbl[name] = cb | g(cb) with g a transparent adapter
+                loop = next((a_ for a_ in ancestors(c) if isinstance(a_, ast.For)), None)
+                if loop is not None and isinstance(loop.target, ast.Tuple) and len(loop.target.elts) == 2 \
+                        and all(isinstance(e_, ast.Name) for e_ in loop.target.elts) and len(loop.body) == 1:
+                    kn, vn = loop.target.elts[0].id, loop.target.elts[1].id
+                    st = loop.body[0]
+                    m_ = find_pat([st], '$$tbl[$k] = $v', {'k': kn, 'v': vn})
+                    if m_:
+                        ok = True
+                    else:
+                        m_ = find_pat([st], '$$tbl[$k] = $g($v)', {'k': kn, 'v': vn})
+                        gfun = f.module.functions.get(m_[0][1]['g']) if m_ else None
+                        if gfun is not None:
+                            ok, why = _adapter(gfun, 'plain')
+                            why = 'adapter %s: %s' % (gfun.name, why)
+            res.ob('%s %s' % (f.module.loc(c), f.qual), 'embedded token callbacks reach the parser\'s callback table unadapted', ok)
+            if not ok:
+                res.finding(f, c, 'embedded token callbacks are adapted on their way to the parser: %s (post-hoc transform calls the method '
+                            'itself, once per token)' % why, construct='embedded:token-callback-flow')
+    res.require_instances(n_flow, 1, 'uses of _get_lexer_callbacks in lark.lark')
     # wrappers applied inner-to-outer in list order; user callback innermost
     ok = has_pat(cc.body_nodes(), 'for $w in $chain:\n    $f = $w($f)')
     res.ob('%s %s' % (cc.loc(), cc.qual), 'the shaping chain wraps the user callback in list order', ok)
     if not ok:
         res.finding(cc, cc.node, 'the shaping wrappers are not applied around the user callback in chain order', construct='embedded:chain')
     return res
+
+
+def unify_ok(n: ast.AST, src: str) -> bool:
+    return bool(find_pat([n], src))
+
+
+def _guard_classes(stmt: ast.AST) -> str:
+    """Class names of the isinstance guard of the if/elif arm holding `stmt` ('*' when unguarded)."""
+    p = stmt
+    for a in ancestors(stmt):
+        if isinstance(a, ast.If) and p in a.body:
+            t = a.test
+            if isinstance(t, ast.Call) and isinstance(t.func, ast.Name) and t.func.id == 'isinstance' and len(t.args) == 2:
+                k = t.args[1]
+                names = [norm(e) for e in k.elts] if isinstance(k, ast.Tuple) else [norm(k)]
+                return ','.join(sorted(names))
+            return norm(t)
+        if isinstance(a, (ast.FunctionDef, ast.For, ast.While)):
+            break
+        p = a
+    return '*'
+
+
+def _adapter(gfun: FuncInfo, kind: str, wparam: Optional[str] = None, nparam: Optional[str] = None) -> Tuple[bool, str]:
+    """Is the closure returned by `gfun` transparent?  plain: it calls func(<its own argument>) and returns that;
+    wrapper: it returns wparam(func, nparam, <its own argument>, None).  In both cases the adapter's parameters are
+    not rebound and the closure keeps no state in captured variables."""
+    ps = gfun.positional_names()
+    inner = [x for x in gfun.node.body if isinstance(x, ast.FunctionDef)]
+    if not (len(inner) == 1 and len(inner[0].args.args) == 1 and ps and not inner[0].args.vararg and not inner[0].args.kwarg):
+        return False, 'the adapter is not a one-argument closure'
+    cparam = inner[0].args.args[0].arg
+    inner_nodes = list(ast.walk(inner[0]))
+    for x in ast.walk(gfun.node):
+        if isinstance(x, ast.Name) and isinstance(x.ctx, (ast.Store, ast.Del)) and x.id in ps:
+            return False, 'the adapter rebinds its parameter %s before the closure uses it' % x.id
+        if isinstance(x, (ast.Nonlocal, ast.Global)):
+            return False, 'the closure rebinds captured variables (%s)' % norm(x)
+    local = {cparam} | {x.id for x in inner_nodes if isinstance(x, ast.Name) and isinstance(x.ctx, ast.Store)}
+    for x in inner_nodes:
+        if isinstance(x, (ast.Subscript, ast.Attribute)) and isinstance(x.ctx, (ast.Store, ast.Del)):
+            base = x
+            while isinstance(base, (ast.Subscript, ast.Attribute)):
+                base = base.value
+            if isinstance(base, ast.Name) and base.id not in local:
+                return False, 'the closure keeps state in the captured variable %s (%s): results then depend on earlier calls' % (
+                    base.id, norm(x))
+        if isinstance(x, ast.Call) and isinstance(x.func, ast.Attribute) and isinstance(x.func.value, ast.Name) \
+                and x.func.value.id not in local and x.func.value.id not in ps \
+                and x.func.attr in ('append', 'add', 'update', 'setdefault', 'pop', 'extend', 'insert', 'remove', 'clear'):
+            return False, 'the closure mutates the captured variable %s' % x.func.value.id
+    rets = [x for x in inner_nodes if isinstance(x, ast.Return)]
+    if kind == 'plain':
+        calls = [x for x in inner_nodes if isinstance(x, ast.Call) and isinstance(x.func, ast.Name) and x.func.id == ps[0]]
+        if not calls:
+            return False, 'the callback is never called'
+        for x in calls:
+            if not (len(x.args) == 1 and not x.keywords and norm(x.args[0]) == cparam):
+                return False, 'the callback is called with %s, not with the argument that Transformer._call_userfunc passes (the children list)' % (
+                    ', '.join(norm(a) for a in x.args) or 'nothing')
+        if not (len(rets) == 1 and rets[0].value in calls and len(calls) == 1):
+            return False, 'the closure does not return exactly the result of one call of the callback'
+        return True, ''
+    ok = len(rets) == 1 and has_pat(rets, 'return %s(%s, %s, %s, None)' % (wparam, ps[0], nparam, cparam))
+    return ok, '' if ok else ('the v_args wrapper is not called as wrapper(func, <node name>, children, None) with the name create_callback '
+                              'looked the method up by')
 
 
 def _name_parts(e: ast.AST) -> Optional[List[str]]:
